@@ -21,7 +21,7 @@ section `ring` compares with the real cells):
 * `nodup_tearOff` / `nodup_push` / `move_preserves_nodup` — the move keeps both rings duplicate-free and disjoint;
 * `prev_mem` — `Prev()`/`Next()` of a member is a member (the sweeper never leaves the ring);
 * `prev_nextField` — one step along the `next` fields and one step back along `prev` is the identity: the two pointer chains
-  describe the same cycle (list level).
+  describe the same cycle (list level); `nextField_prev` — the converse, so `Prev()` is a bijection of the ring.
 -/
 namespace Logrange.Props.C15Ring
 open Logrange.Ring
@@ -253,6 +253,53 @@ theorem prev_nextField (r : Ring) (hr : r.Nodup) (e : Nat) (he : e ∈ r) : prev
     cases hl : (l1 ++ e :: y :: l2').getLast? with
     | none => simp at hl
     | some l => exact prevAux_mid l1 l e y l2' hy1 hye
+
+/-! the converse: one step back along `prev`, one forward along the `next` fields — so `Prev()` is a bijection of the ring
+with inverse `nextField` (a walk by `Prev()`/`Next()` visits distinct cells until it is back at its start). -/
+
+theorem snoc_cases (l : List Nat) : l = [] ∨ ∃ l' b, l = l' ++ [b] := by
+  rcases List.eq_nil_or_concat l with h | ⟨L, b, h⟩
+  · exact Or.inl h
+  · exact Or.inr ⟨L, b, by rw [h, List.concat_eq_append]⟩
+
+theorem prev_head_eq_last (e : Nat) (t : List Nat) (z : Nat) : prev (e :: (t ++ [z])) e = z := by
+  have hl : (e :: (t ++ [z])).getLast? = some z := by
+    rw [← List.cons_append]; exact List.getLast?_concat
+  simp [prev, prevAux, hl]
+
+theorem nextField_prev (r : Ring) (hr : r.Nodup) (e : Nat) (he : e ∈ r) : nextField r (prev r e) = e := by
+  obtain ⟨l1, l2, rfl⟩ := List.append_of_mem he
+  have hnd := List.nodup_append.mp hr
+  have hn1 : e ∉ l1 := fun h => hnd.2.2 e h e (by simp) rfl
+  rcases snoc_cases l1 with rfl | ⟨l1', p, rfl⟩
+  · rcases snoc_cases l2 with rfl | ⟨t, z, rfl⟩
+    · simp [prev, prevAux, nextField, nextField.go]
+    · simp only [List.nil_append]
+      rw [prev_head_eq_last]
+      have hz : z ∉ e :: t := by
+        have h2 : (e :: (t ++ [z])).Nodup := hnd.2.1
+        rw [← List.cons_append] at h2
+        have := List.nodup_append.mp h2
+        intro hm; exact this.2.2 z hm z (by simp) rfl
+      have hne : e :: (t ++ [z]) ≠ [] := by simp
+      rw [nextField_eq_go _ _ hne]
+      have := go_last z e (e :: t) hz
+      simpa using this
+  · have hpe : e ≠ p := by intro h; apply hn1; simp [h]
+    have he1 : e ∉ l1' := fun h => hn1 (by simp [h])
+    have hp1 : p ∉ l1' := by
+      have := List.nodup_append.mp hnd.1
+      intro hm; exact this.2.2 p hm p (by simp) rfl
+    have hne : l1' ++ [p] ++ e :: l2 ≠ [] := by simp
+    have hform : l1' ++ [p] ++ e :: l2 = l1' ++ p :: e :: l2 := by simp
+    have hprev : prev (l1' ++ [p] ++ e :: l2) e = p := by
+      rw [hform]; unfold prev
+      cases hl : (l1' ++ p :: e :: l2).getLast? with
+      | none => simp at hl
+      | some l => exact prevAux_mid l1' l p e l2 he1 hpe
+    rw [hprev, nextField_eq_go _ _ hne]
+    simp only [hform]
+    exact go_mid p _ l1' e l2 hp1
 
 /-- non-vacuity: a concrete move between two rings -/
 example : tearOff [1, 2, 3] (some 2) = [1, 3] ∧ append [2] [7, 8] = [2, 7, 8] ∧ prev [1, 2, 3] 1 = 3 := by decide
